@@ -65,6 +65,15 @@ theorem c01_fs_history (v : Model.Fs.Vol) (count : Nat) (hv : Proofs.FsInv.VolOK
     Model.Fs.abs (Model.Fs.run v s ops) = Proofs.FsRun.specRun v s (Model.Fs.abs s) ops :=
   Proofs.FsRun.run_sim hv ops s h hdom
 
+/-- **out-of-space only when the volume is full** — in every reachable state of the filesystem model (the
+    allocation hint never runs ahead of a free cluster, `Proofs.FsHint`): an allocation of `n` clusters is
+    refused only if the *whole volume* has at most `n` allocatable clusters -/
+theorem c01_fs_enospc_means_full (v : Model.Fs.Vol) (count : Nat) (hv : Proofs.FsInv.VolOK v count) (s : Model.Fs.St)
+    (h : Proofs.FsInv.Inv v count s) (ops : List Model.Fs.Op) (n : Nat)
+    (hno : allocate v.p (Model.Fs.run v s ops).fat (Model.Fs.run v s ops).hint v.bound n = none) :
+    Proofs.Alloc.avail v.p (Model.Fs.run v s ops).fat v.bound 0 ≤ n :=
+  Proofs.FsRun.enospc_means_full (Proofs.FsInv.run_inv hv ops s h) n hno
+
 /-- path resolution through the directories (what `get_entry` does) is lookup by path -/
 theorem c01_fs_lookup (nodes : List Model.Fs.Node) (h : Proofs.FsTree.TreeInv nodes) (q : List Nat) (hq : q ≠ []) :
     Model.Fs.resolve nodes q = (nodes.find? (fun n => n.path == q)).map Model.Fs.Loc.node :=
@@ -82,6 +91,7 @@ example : Proofs.FsInv.Inv demoVol 6 demoSt :=
     (fun c h2 hc => by
       have : c = 2 ∨ c = 3 ∨ c = 4 ∨ c = 5 ∨ c = 6 ∨ c = 7 := by omega
       rcases this with rfl | rfl | rfl | rfl | rfl | rfl <;> decide) (by decide)
+    (fun i hi _ => by omega)
 example : (Model.Fs.run demoVol demoSt demoOps).fat = [4088, 4095, 4095, 4095, 0, 0, 0, 0] := by decide
 example : Model.Fs.abs (Model.Fs.run demoVol demoSt demoOps) = [⟨[1], true, 0⟩, ⟨[1, 2], false, 10⟩] := by decide
 
